@@ -154,6 +154,9 @@ struct Cover {
     sample_digests: BTreeMap<u64, u64>,
     failing: Vec<(u64, Vec<Violation>)>,
     failing_total: u64,
+    /// digests of ordered adjacent pairs seen (covering batch only)
+    adj_dir: HashSet<u64>,
+    adj_map: HashSet<u64>,
 }
 
 impl Cover {
@@ -191,6 +194,8 @@ impl Cover {
         self.sample_digests.extend(o.sample_digests);
         self.failing.extend(o.failing);
         self.failing_total += o.failing_total;
+        self.adj_dir.extend(o.adj_dir);
+        self.adj_map.extend(o.adj_map);
     }
 }
 
@@ -278,7 +283,29 @@ fn absorb(ctx: &Ctx, cov: &mut Cover, run: u64, r: &RunResult, v: Vec<Violation>
     }
 }
 
+#[derive(Clone, Copy, PartialEq, Eq, Debug)]
+enum Batch {
+    /// seeded search: run i draws its profile and every decision from splitmix(seed, generator, i)
+    Random,
+    /// deterministic adjacency-covering family: run j is member j (seed-independent)
+    Cover,
+}
+
+fn make_mode(batch: Batch, seed: u64, gen: Gen, i: u64) -> world::Mode {
+    match batch {
+        Batch::Random => sim::random_mode(seed, gen, i),
+        Batch::Cover => world::Mode::Random {
+            rng: rng::Rng::new(0),
+            profile: world::Profile::cover(i as u32),
+        },
+    }
+}
+
 fn run_batch(ctx: &Arc<Ctx>, gen: Gen, seed: u64, runs: u64, threads: u64, sample_stride: u64) -> Cover {
+    run_batch_of(ctx, Batch::Random, gen, seed, runs, threads, sample_stride)
+}
+
+fn run_batch_of(ctx: &Arc<Ctx>, batch: Batch, gen: Gen, seed: u64, runs: u64, threads: u64, sample_stride: u64) -> Cover {
     let mut handles = vec![];
     for t in 0..threads {
         let ctx = ctx.clone();
@@ -290,8 +317,27 @@ fn run_batch(ctx: &Arc<Ctx>, gen: Gen, seed: u64, runs: u64, threads: u64, sampl
                     let mut good: Vec<String> = vec![];
                     let mut i = t;
                     while i < runs {
-                        let r = sim::execute(gen, &ctx.image, sim::random_mode(seed, gen, i), true, false);
+                        let r = sim::execute(gen, &ctx.image, make_mode(batch, seed, gen, i), true, false);
                         let v = sim::judge(&r, &ctx.comp, &mut good);
+                        if batch == Batch::Cover {
+                            // measure what the family is for: ordered adjacencies actually produced
+                            for (_p, names) in &r.dir_orders {
+                                for w in names.windows(2) {
+                                    let mut d = rng::Fnv::default();
+                                    d.str(&w[0]);
+                                    d.str(&w[1]);
+                                    cov.adj_dir.insert(d.0);
+                                }
+                            }
+                            if let Some(rec) = r.iter_orders.iter().find(|x| x.kind == 'M') {
+                                for w in rec.ids.windows(2) {
+                                    let mut d = rng::Fnv::default();
+                                    d.u64(w[0]);
+                                    d.u64(w[1]);
+                                    cov.adj_map.insert(d.0);
+                                }
+                            }
+                        }
                         absorb(&ctx, &mut cov, i, &r, v, sample_stride);
                         i += threads;
                     }
@@ -618,6 +664,10 @@ fn cmd_check(a: &Args) -> i32 {
     // ---- simulation batches
     let stride_layout = (layout_runs / 512).max(1);
     let t_sim = Instant::now();
+    // deterministic adjacency-covering family first (seed-independent), then the seeded search
+    let n_dir = names_of(&ctx.image, "data/cldr-misc-full/main").len();
+    let cover_runs = if a.opts.get("cover").map(|s| s.as_str()) == Some("off") { 0 } else { world::zigzag_family_size(n_dir) as u64 };
+    let cvr = run_batch_of(&ctx, Batch::Cover, Gen::Layout, seed, cover_runs, threads, 64);
     let lay = run_batch(&ctx, Gen::Layout, seed, layout_runs, threads, stride_layout);
     let lik = run_batch(&ctx, Gen::Likely, seed, likely_runs, threads.min(likely_runs.max(1)), 1);
     let sim_wall = t_sim.elapsed().as_secs_f64();
@@ -655,6 +705,15 @@ fn cmd_check(a: &Args) -> i32 {
     let hf_lik = run_fault_batch(&ctx, Gen::Likely, seed, (fault_runs / 100).max(12), threads);
     let (dn_l, dbad_l) = determinism_recheck(&ctx, Gen::Layout, seed, &lay.sample_digests, threads);
     let (dn_k, dbad_k) = determinism_recheck(&ctx, Gen::Likely, seed, &lik.sample_digests, threads.min(4));
+    println!(
+        "cover: runs={} (adjacency-covering family over {} directory entries): distinct ordered adjacencies read_dir={} of {}, locale-map iteration={}; failing_runs={}",
+        cvr.runs,
+        n_dir,
+        cvr.adj_dir.len(),
+        n_dir * n_dir.saturating_sub(1),
+        cvr.adj_map.len(),
+        cvr.failing_total
+    );
     if dbad_l + dbad_k > 0 {
         harness_error(&format!(
             "determinism self-check failed: {} of {} re-executed runs produced a different event log",
@@ -719,23 +778,26 @@ fn cmd_check(a: &Args) -> i32 {
         let p = write_replay(&replay_dir, &ctx, "static", None, seed, None, &tier, v, &[], json!(null));
         reported.push((v.clone(), p));
     }
-    for (gen, cov) in [(Gen::Layout, &lay), (Gen::Likely, &lik)] {
+    let mut classes_done_global: BTreeSet<String> = BTreeSet::new();
+    for (batch, gen, cov) in [(Batch::Cover, Gen::Layout, &cvr), (Batch::Random, Gen::Layout, &lay), (Batch::Random, Gen::Likely, &lik)] {
         let mut classes_done: BTreeSet<String> = BTreeSet::new();
         let mut failing: Vec<&(u64, Vec<Violation>)> = cov.failing.iter().collect();
         failing.sort_by_key(|f| f.0);
         for (run, vs) in failing {
             for v in vs {
                 let class = sim::violation_class(v);
-                if classes_done.contains(&class) || classes_done.len() >= 6 {
+                let gclass = format!("{}/{}", gen.name(), class);
+                if classes_done.contains(&class) || classes_done.len() >= 6 || classes_done_global.contains(&gclass) {
                     continue;
                 }
                 classes_done.insert(class.clone());
+                classes_done_global.insert(gclass);
                 if let Some((_s, what)) = is_known(v) {
                     known_lines.push(format!("KNOWN-FINDING: property={} {} ({})", PROPERTY, v.signature, what));
                     continue;
                 }
                 // re-execute to get the trace, minimise the schedule, write and verify the replay file
-                let r = sim::execute(gen, &ctx.image, sim::random_mode(seed, gen, *run), false, false);
+                let r = sim::execute(gen, &ctx.image, make_mode(batch, seed, gen, *run), false, false);
                 let m = sim::minimise(gen, &ctx.image, &ctx.comp, &r.trace, &class);
                 // final violation record as the minimised schedule produces it
                 let rr = sim::execute(gen, &ctx.image, sim::replay_mode(&m.schedule), false, false);
@@ -751,6 +813,7 @@ fn cmd_check(a: &Args) -> i32 {
                     "displaced_dir_entries_before": m.moved_before,
                     "displaced_dir_entries_after": m.moved_after,
                     "original_profile": r.profile.map(|p| p.name()),
+                    "found_in_batch": format!("{:?}", batch),
                     "failing_runs_in_batch": cov.failing_total,
                 });
                 let p = write_replay(&replay_dir, &ctx, "run", Some(gen), seed, Some(*run), &tier, &final_v, &m.schedule, extra);
@@ -796,16 +859,19 @@ fn cmd_check(a: &Args) -> i32 {
         .zip(lay.pair_ba.iter())
         .filter(|(a, b)| **a && **b)
         .count();
-    let total_runs = lay.runs + lik.runs;
+    let total_runs = lay.runs + lik.runs + cvr.runs;
     let distinct_nontrivial = {
         // distinct seam-level executions (event-log digests) other than the all-default schedule's
         let base_l = sim::execute(Gen::Layout, &ctx.image, sim::replay_mode(&[]), false, false).log_digest;
         let base_k = sim::execute(Gen::Likely, &ctx.image, sim::replay_mode(&[]), false, false).log_digest;
-        lay.distinct_logs.iter().filter(|d| **d != base_l).count() + lik.distinct_logs.iter().filter(|d| **d != base_k).count()
+        let mut all_l: HashSet<u64> = lay.distinct_logs.clone();
+        all_l.extend(cvr.distinct_logs.iter().copied());
+        all_l.iter().filter(|d| **d != base_l).count() + lik.distinct_logs.iter().filter(|d| **d != base_k).count()
     };
     let mut sum = RunStats::default();
     sum.add(&lay.stats);
     sum.add(&lik.stats);
+    sum.add(&cvr.stats);
     let ev = json!({
         "property_id": PROPERTY,
         "tier": tier,
@@ -819,7 +885,16 @@ fn cmd_check(a: &Args) -> i32 {
             "rule": "one evaluation = one simulated execution of a generator main() from start to finish under a seeded schedule (read_dir order, hasher keys and iteration tweak of every HashMap/HashSet, short-read/EINTR plan of every opened file). Two executions are distinct when the digest of their seam-level event log differs (every seam call with its decision and a digest of what it returned or printed); non-trivial = differs from the event log of the all-default schedule (sorted directory, keys (0,0), no tweak).",
             "samples": samples,
             "exhaustive": false,
-            "simulated_runs": { "generate_layout": lay.runs, "generate_likelysubtags": lik.runs },
+            "simulated_runs": { "generate_layout_seeded_search": lay.runs, "generate_layout_adjacency_covering_family": cvr.runs, "generate_likelysubtags": lik.runs },
+            "adjacency_covering_family": {
+                "note": "deterministic, seed-independent batch: Walecki zigzag decomposition of K_n into Hamiltonian paths, each walked both ways, applied to the read_dir order and (over the keys in canonical order) to the iteration order of every HashMap/HashSet; guarantees every ordered pair (A immediately before B) and every entry first / last",
+                "runs": cvr.runs,
+                "directory_entries": n_dir,
+                "ordered_adjacent_pairs_possible": n_dir * n_dir.saturating_sub(1),
+                "ordered_adjacent_pairs_seen_in_read_dir_orders": cvr.adj_dir.len(),
+                "ordered_adjacent_pairs_seen_in_locale_map_iteration": cvr.adj_map.len(),
+                "failing_runs": cvr.failing_total,
+            },
             "runs_per_hour": (total_runs as f64 / sim_wall.max(1e-9) * 3600.0) as u64,
             "simulation_wall_s": sim_wall,
             "simulated_time": "n/a: the simulated programs have no clock, timer, sleep or deadline",
@@ -865,7 +940,7 @@ fn cmd_check(a: &Args) -> i32 {
                 "same_script_locale_pairs": ctx.pairs.len(),
                 "same_script_pairs_seen_in_both_relative_orders": pairs_both,
                 "runs_with_a_nondefault_decision": lay.nondefault_runs + lik.nondefault_runs,
-                "generator_panics": lay.panics + lik.panics,
+                "generator_panics": lay.panics + lik.panics + cvr.panics,
             },
             "static_oracle": {
                 "S1_rows_compared_with_cldr_reference": st.rows_checked,
